@@ -282,24 +282,26 @@ def shell_layer(ctx, text, conn):
             warnings.simplefilter('ignore')
             sh = shell.BQLShell(path, out, interactive=False, runinit=False, format='csv')
             queries = dict(sh.queries)
+
+            def run(cmd):
+                out.seek(0), out.truncate()
+                try:
+                    sh.onecmd(cmd)
+                except Exception as exc:  # noqa: BLE001
+                    return 'EXC:%s:%s' % (type(exc).__name__, exc)
+                return out.getvalue()
             for name, query in sorted(queries.items()):
                 stmt = parser.parse(query.query_string)
                 if not isinstance(stmt, parser.ast.Select) or not isinstance(stmt.from_clause, parser.ast.From):
                     continue
-                out.seek(0), out.truncate()
-                sh.onecmd('.run ' + name)
-                got = out.getvalue()
+                got = run('.run ' + name)
                 if stmt.from_clause.close:
                     closed = query.query_string        # the query names its own CLOSE: the directive's date must not replace it
                 else:
                     closed = query.query_string.replace('FROM year >= 2019', 'FROM year >= 2019 CLOSE ON %s' % query.date.isoformat())
                     assert closed != query.query_string
-                out.seek(0), out.truncate()
-                sh.onecmd(closed)
-                want = out.getvalue()
-                out.seek(0), out.truncate()
-                sh.onecmd(query.query_string)
-                unclosed = out.getvalue()
+                want = run(closed)
+                unclosed = run(query.query_string)
                 ctx.count('oracle:named-query')
                 ctx.evaluations += 1
                 if got != want:
